@@ -85,6 +85,7 @@ Inductive Case :=
 | NewTrusting (t ou nu : Z) (r : option Z)
 | StatusCase (c : Client) (now : Z) (st : Status)
 | MatchCase (a b : Client) (m : bool)
+| ValidateCase (c : Client) (r : Res)
 | LightCase (lc : LCase).
 
 Definition check (c : Case) : bool :=
@@ -103,5 +104,7 @@ Definition check (c : Case) : bool :=
   | NewTrusting t ou nu r => optZ_eqb (calc_new_trusting t ou nu) r
   | StatusCase c now st => status_eqb (status now c) st
   | MatchCase a b m => bool_eqb (is_matching a b) m
+  | ValidateCase c r =>
+      res_eqb (match validate_client c with Some true => Ok | Some false => Err | None => Panic end) r
   | LightCase lc => light_check lc
   end.
